@@ -294,7 +294,7 @@ def run_batch(world_name, prop, tier, batch_seed, n_runs, workers, timeout, budg
         try:
             for f in as_completed(futs, timeout=(budget_s * 4 + 120) if budget_s else None):
                 results.extend(f.result())
-                if budget_s and time.time() - t0 > budget_s:
+                if budget_s and time.time() - t0 > budget_s and len(results) >= min(8, n_runs):  # never stop on fewer than 8 runs (loaded machine)
                     stopped_early = True
                     for g in futs:
                         g.cancel()
